@@ -15,7 +15,13 @@
        ACT = - | spawn | (deliver t) | (await t..)
        park, heapy = 0|1 ; fin = - | (ok v) | (err e)
    stdout, one line per case:
-     (states ST ..) [(fault kind site step)]
+     (states ST ..) [(fault kind site step)] (premises (actions n) (pid_honest P) (await_honest P) (park_honest P) (time_honest P) (resume_honest P) (relevant (slices n) (sends n) (awaits n) (parks n) (timed n) (resumes n) (timed_parks n)))
+                                   ; timed = slices ending inside a select with its start set and a timeout source; timed_parks = those that park
+       P = ok | (violated i)       ; the boolean premises of the global theorems (sys/ProtoPremises.v:
+                                   ; premises_step) evaluated on the state BEFORE each of the n replayed
+                                   ; actions; i = index of the first action on which the premise is false
+     (selftest) on stdin: replays a built-in two-action schedule whose slice sends to the unallocated
+     pid 7 and prints its (premises ..) — the negative control of the premise check
        ST  = (st NODE .. (env (router (p w)..) (pending (a (exp w..) (resp w..) (ans t..))..) (next n)) (clock t))
        NODE= (node (queue p..) (spawning p..) (selecting p..) (procs (p (mail M..) (res R) (aw (t R)..)) ..)
                    (awaited p..) (awaiters (t (a..))..) (pending (p (req..))..) (cmds C..) (evts V..))
@@ -146,6 +152,50 @@ let fault_text = function
   | WorkerErr n -> "worker-err " ^ si n
   | EnvErr n -> "env-err " ^ si n
 
+let premise_names = [| "pid_honest"; "await_honest"; "park_honest"; "time_honest"; "resume_honest" |]
+
+(* replay actions from state s0; returns the text of the states / fault and of the premises *)
+let replay_actions (n : nat) (acts : sched_action list) : string =
+  let b = Buffer.create 4096 in
+  Buffer.add_string b "(states";
+  let first = Array.make 5 (-1) in
+  let checked = ref 0 in
+  (* how many of the actions exercise a premise: slices executed, sends, awaits, parks, selects with a timeout running *)
+  let rel = Array.make 7 0 in
+  let bump k = rel.(k) <- rel.(k) + 1 in
+  let rec go s i = function
+    | [] -> ()
+    | a :: rest ->
+      let ((p0, p1), (p2, p3)) = premises_step s a in
+      let p4 = resume_honest_stepb s a in
+      incr checked;
+      (match a with
+       | W (_, _, o) when o.o_pid <> None ->
+         bump 0;
+         (match o.o_did.d_act with Some (ADeliver _) -> bump 1 | Some (AAwait _) -> bump 2 | _ -> ());
+         if o.o_did.d_park then bump 3;
+         (match o.o_did.d_sel with Some sl when sl.sl_start <> None && sl.sl_timeouts <> [] -> bump 4; if o.o_did.d_park then bump 6 | _ -> ())
+       | X (XResume _) -> bump 5
+       | _ -> ());
+      List.iteri (fun k ok -> if (not ok) && first.(k) < 0 then first.(k) <- i) [p0; p1; p2; p3; p4];
+      (match sys_step s a with
+       | Good s' -> Buffer.add_char b ' '; Buffer.add_string b (state s'); go s' (i + 1) rest
+       | Fault x -> Buffer.add_string b (Printf.sprintf ") (fault %s %d" (fault_text x) i)) in
+  go (init n) 0 acts;
+  Buffer.add_string b ")";
+  Buffer.add_string b (Printf.sprintf " (premises (actions %d)" !checked);
+  Array.iteri (fun k nm ->
+      Buffer.add_string b (if first.(k) < 0 then Printf.sprintf " (%s ok)" nm else Printf.sprintf " (%s (violated %d))" nm first.(k)))
+    premise_names;
+  Buffer.add_string b (Printf.sprintf " (relevant (slices %d) (sends %d) (awaits %d) (parks %d) (timed %d) (resumes %d) (timed_parks %d))" rel.(0) rel.(1) rel.(2) rel.(3) rel.(4) rel.(5) rel.(6));
+  Buffer.add_string b ")";
+  Buffer.contents b
+
+let selftest () =
+  let idle = { d_taken = []; d_sel = None; d_forget = []; d_act = Some (ADeliver (nat_of_int 7)); d_park = false; d_fin = None; d_heapy = false } in
+  let o = { o_pid = Some O; o_did = idle; o_expired = [O]; o_awaiters = [O]; o_completed = [O] } in
+  replay_actions (S O) [X (XStart false); W (O, None, o)]
+
 let () =
   try
     while true do
@@ -156,17 +206,8 @@ let () =
            | Sexp.List (Sexp.Atom "replay" :: f) ->
              let n = (match section "workers" f with [a] -> nat_of a | _ -> S O) in
              let steps = section "steps" f in
-             let b = Buffer.create 4096 in
-             Buffer.add_string b "(states";
-             let rec go s i = function
-               | [] -> ()
-               | a :: rest ->
-                 (match sys_step s (action_of a) with
-                  | Good s' -> Buffer.add_char b ' '; Buffer.add_string b (state s'); go s' (i + 1) rest
-                  | Fault x -> Buffer.add_string b (Printf.sprintf ") (fault %s %d" (fault_text x) i)) in
-             go (init n) 0 steps;
-             Buffer.add_string b ")";
-             print_endline (Buffer.contents b)
+             print_endline (replay_actions n (List.map action_of steps))
+           | Sexp.List [Sexp.Atom "selftest"] -> print_endline (selftest ())
            | _ -> print_endline "(bad-case)"
          with Failure m -> print_endline ("(driver-error " ^ String.escaped m ^ ")"))
       end
